@@ -11,9 +11,9 @@ package appcore
 // sent and no channel is closed here.  fwd is the number of messages forwarded (all
 // received ones, except a final stop message).
 //@ func (*AppCore).HandleMessagesUntilEOF
-//@ requires[C07] appCore != nil
+//@ requires appCore != nil && reader != nil && appCore.Config != nil
 //@ requires[C09] forall(i, 0, len(appCore.Channels), forall(j, 0, len(appCore.Channels), i != j && appCore.Channels[i] != nil ==> appCore.Channels[i] != appCore.Channels[j]))
-//@ requires[C07] forall(i, 0, len(appCore.Channels), appCore.Channels[i] != nil ==> !closed(appCore.Channels[i]))
+//@ requires forall(i, 0, len(appCore.Channels), appCore.Channels[i] != nil ==> !closed(appCore.Channels[i]) && allocated(appCore.Channels[i]))
 //@ modifies sentall(appCore.Channels)
 //@ ensures[C09] result == 0 || result == 1
 //@ ensures[C09] result == 0 ==> recvd(messageChan) == feedlen(messageChan)
@@ -23,8 +23,10 @@ package appcore
 //@ invariant[C09] messageChan != nil && fresh(messageChan) && recvd(messageChan) <= feedlen(messageChan)
 //@ invariant[C09] forall(i, 0, len(appCore.Channels), appCore.Channels[i] != nil ==> sentn(appCore.Channels[i]) == old(sentn(appCore.Channels[i])) + recvd(messageChan))
 //@ invariant[C09] forall(i, 0, len(appCore.Channels), appCore.Channels[i] != nil ==> forall(k, 0, recvd(messageChan), sent(appCore.Channels[i])[old(sentn(appCore.Channels[i])) + k] == feed(messageChan)[k]))
-//@ decreases[C07,C09] feedlen(messageChan) - recvd(messageChan)
+//@ invariant forall(i, 0, len(appCore.Channels), appCore.Channels[i] != nil ==> !closed(appCore.Channels[i]) && allocated(appCore.Channels[i]))
+//@ decreases[C09] feedlen(messageChan) - recvd(messageChan)
 //@ loop 2
+//@ invariant forall(i, 0, len(appCore.Channels), appCore.Channels[i] != nil ==> !closed(appCore.Channels[i]) && allocated(appCore.Channels[i]))
 //@ invariant[C09] messageChan != nil && fresh(messageChan) && recvd(messageChan) <= feedlen(messageChan) && recvd(messageChan) >= 1 && message == feed(messageChan)[recvd(messageChan) - 1]
 //@ invariant[C09] forall(i, 0, len(appCore.Channels), appCore.Channels[i] != nil ==> sentn(appCore.Channels[i]) == old(sentn(appCore.Channels[i])) + recvd(messageChan) - ite(i <= rangeindex, 0, 1))
 //@ invariant[C09] forall(i, 0, len(appCore.Channels), appCore.Channels[i] != nil ==> forall(k, 0, recvd(messageChan) - ite(i <= rangeindex, 0, 1), sent(appCore.Channels[i])[old(sentn(appCore.Channels[i])) + k] == feed(messageChan)[k]))
